@@ -95,6 +95,18 @@ let run_recs id =
        | Some (((rank, dims), ty), dref) ->
          print_string (Printf.sprintf "%s ndgm %d %s %d %d %s %d %s\n" id !k kind (zi r) (zi rank) (ints dims) (zi ty) (data_of M.dFTAG_SD dref))
        | None -> print_string (Printf.sprintf "%s ndgm %d %s %d none\n" id !k kind (zi r)));
+      (* the scales record of the group, through the SD reader's offset walk and the DFSD reader's sequential read *)
+      (match M.ndg_view st members, List.filter (fun (t', _) -> t' = M.dFTAG_SDS) members with
+       | Some (((_, dims), ty), _), (_, sr) :: _ ->
+         (match M.get st M.dFTAG_SDS sr with
+          | Some rc ->
+            let sizes = List.map (fun d -> z_of_int (zi d * zi (M.ntsize ty))) dims in
+            let show name l = List.iteri (fun i s ->
+              print_string (Printf.sprintf "%s %s %d %d %s\n" id name !k i (match s with Some b -> hex_of_bytes b | None -> "none"))) l in
+            show "scalem" (M.sd_read_scales sizes rc);
+            show "dscalem" (M.dfsd_read_scales sizes rc)
+          | None -> ())
+       | _, _ -> ());
       (match M.dfsd_view st members with
        | Some (((rank, dims), ty), dref) ->
          print_string (Printf.sprintf "%s dfsdm %d %s %d %d %s %d %s\n" id !k kind (zi r) (zi rank) (ints dims) (zi ty) (data_of M.dFTAG_SD dref))
@@ -179,7 +191,8 @@ let () =
            let n = next_int () in
            let l = List.init n (fun _ -> parse_ds ()) in
            let st = M.old_sds_file (if form = "sdg" then M.dFTAG_SDG else M.dFTAG_NDG)
-                      (List.map (fun d -> ((d.M.ds_dims, d.M.ds_nt), M.file_order d.M.ds_nt d.M.ds_data)) l) in
+                      (List.map (fun d -> (((d.M.ds_dims, d.M.ds_nt), M.file_order d.M.ds_nt d.M.ds_data),
+                                            List.map (function Some b -> Some (M.file_order d.M.ds_nt b) | None -> None) d.M.ds_scales)) l) in
            show_store id "dsnvg" (-1) st;
            print_lines id (M.sds_views (z_of_int 1) l)
          | "rawimg" ->
